@@ -115,6 +115,9 @@ func EOFTok(t Token, pos int) bool { return t.Typ == TEOF && t.Val == "EOF" && t
 // Reset: the state errorf leaves behind (the stream ends).
 func Reset(l *Lexer) bool { return l.input == "" && l.pos == 0 && l.start == 0 }
 
+// InputOf: the text a lexer was created for (what it has not consumed yet is a suffix of it).
+func InputOf(l *Lexer) string { return l.input }
+
 // KnownTyp: t is one of the declared token types.
 func KnownTyp(t TokType) bool { return TErr <= t && t <= TStart }
 
